@@ -664,6 +664,26 @@ func c03Coverage(p *Prog, l *Ledger, locks *LockInfo, s *c03Strat) {
 					if sf := c03SourceOf(c.Obj(), s); sf != nil && sameField(*sf, src) {
 						if flooredParam(pa, c.Args[0], param, step) == "" {
 							ok = true
+						} else if fr, _, isF := loadedField(strip(c.Args[0], true)); isF && sameField(fr, s.TotalLim) {
+							// the new total re-read from the field it was just stored into (same critical section)
+							var lastVal ssa.Value
+							lastStep := -1
+							pa.Each(func(st2 int, i2 ssa.Instruction) bool {
+								if i2 == ins {
+									return false
+								}
+								if stt, isS := i2.(*ssa.Store); isS {
+									if fa, isFA := stt.Addr.(*ssa.FieldAddr); isFA {
+										if f2, _, _ := fieldOf(fa); sameField(f2, s.TotalLim) {
+											lastVal, lastStep = stt.Val, st2
+										}
+									}
+								}
+								return true
+							})
+							if lastVal != nil && flooredParam(pa, lastVal, param, lastStep) == "" {
+								ok = true
+							}
 						}
 					}
 					return true
